@@ -41,3 +41,18 @@ theorem runWFrom_flat : ∀ (h : List WOp) (w : World) (c : List Op) (s : Option
 theorem stepW_op_snap (w : World) (o : Op) : (stepW w (.op o)).1.snap = w.snap := rfl
 
 end DV.C03
+
+namespace DV.C03
+
+theorem runWFrom_append : ∀ (h1 h2 : List WOp) (w : World), runWFrom w (h1 ++ h2) = runWFrom (runWFrom w h1) h2
+  | [], _, _ => rfl
+  | o :: os, h2, w => by simp only [List.cons_append, runWFrom]; exact runWFrom_append os h2 _
+
+theorem runWFrom_ops_snap : ∀ (ops : List Op) (w : World), (runWFrom w (ops.map .op)).snap = w.snap
+  | [], _ => rfl
+  | o :: os, w => by
+    simp only [List.map_cons, runWFrom]
+    rw [runWFrom_ops_snap os]
+    rfl
+
+end DV.C03
